@@ -35,7 +35,7 @@ def _same(a, b):
 
 
 @harness("C09.net", quick=[dict(nif=n, namelen=L) for n, L in ((0, 1), (1, 1), (1, 3), (2, 1), (2, 3))],
-         thorough=[dict(nif=n, namelen=L) for n in (0, 1, 2, 3) for L in (1, 2, 4, 6) if n or L == 1])
+         thorough=[dict(nif=n, namelen=L) for n in (0, 1, 2, 3, 4) for L in (1, 2, 4, 6, 8, 15) if (n or L == 1) and n * L <= 24])
 def net(ctx, nif, namelen):
     k = simk.Kernel(ctx)
     vals, names = [], []
